@@ -532,11 +532,11 @@ def tr_words(tr):
     return ' '.join(num(x) for x in tr[0] + tr[1])
 
 
-def gen_placement(rng):
+def gen_placement(rng, kind=None):
     '''How the cells are moved: (kind, tr, cell keyword text, data cards).'''
-    kind = rng.choice(['trcl-inline', 'trcl-inline', 'trcl-shift', 'trcl-num',
-                       'trcl-star', 'fill-inline', 'fill-inline', 'fill-num',
-                       'fill-shift'])
+    kind = kind or rng.choice(['trcl-inline', 'trcl-inline', 'trcl-shift',
+                               'trcl-num', 'trcl-star', 'fill-inline',
+                               'fill-inline', 'fill-num', 'fill-shift'])
     origin, mat = gen_tr(rng)
     if kind.endswith('shift'):
         mat = list(TR_ROTATIONS[0])
@@ -591,12 +591,12 @@ def transformed_deck(body, exprs, placement):
     return text, where
 
 
-def sweep_transformed(body, rng, n_random, n_near):
+def sweep_transformed(body, rng, n_random, n_near, kind=None):
     '''One deck of cells moved by one transformation, all referencing the
     body in different ways.  Same result layout as sweep_deck.'''
     sid, mn, prm = body
     exprs = gen_exprs(rng, n_facets(mn, prm))
-    placement = gen_placement(rng)
+    placement = gen_placement(rng, kind)
     kind, tr = placement[0], placement[1]
     text, where = transformed_deck(body, exprs, placement)
     conv = impl.convert(text)
@@ -803,7 +803,7 @@ def _impl_convert_entry_raw(typ, params, side, tr):
     return ('ok', _t4_out(joined))
 
 
-def _impl_pot_transform_raw(entries, sub, sign, tr):
+def _impl_pot_transform_raw(entries, sub, sign, tr, warm=()):
     '''CellConversion.pot_transform on the reference (+-9, sub) to a body
     whose entries are given; returns the new collection and the reference.'''
     from t4_geom_convert.Kernel.FileHandlers.Parser.ParseMCNPSurface import \
@@ -819,6 +819,14 @@ def _impl_pot_transform_raw(entries, sub, sign, tr):
                                         {}), s) for t, p, s in entries]
         dic_t4 = CollectionDict()
         conv = CellConversion(100, 200, {}, dic_t4, dic_mcnp, {})
+        # the same converter object first moves OTHER references to the same
+        # body by the same transformation: the result for (sign, sub) must not
+        # depend on that history (the model is a function of the reference)
+        for other in warm:
+            try:
+                conv.pot_transform(Surface(9 * other[0], other[1]), tr12(tr))
+            except Exception:      # pylint: disable=broad-except
+                pass
         ref = conv.pot_transform(Surface(9 * sign, sub), tr12(tr))
         coll = dic_t4[abs(ref)]
     except Exception as exc:      # pylint: disable=broad-except
@@ -860,9 +868,9 @@ def impl_convert_entry(typ, params, side, tr):
     with cov():
         return _impl_convert_entry_raw(typ, params, side, tr)
 
-def impl_pot_transform(entries, sub, sign, tr):
+def impl_pot_transform(entries, sub, sign, tr, warm=()):
     with cov():
-        return _impl_pot_transform_raw(entries, sub, sign, tr)
+        return _impl_pot_transform_raw(entries, sub, sign, tr, warm)
 
 
 # ---- run ---------------------------------------------------------------------
@@ -1041,7 +1049,10 @@ def _run(res, tier, seed, proofs_ok):
             nent = len(out[1])
             sub = rng.choice([None, None] + list(range(0, nent + 2)))
             sign = rng.choice([1, -1])
-            got, ref = impl_pot_transform(out[1], sub, sign, ptr)
+            warm = [(rng.choice([1, -1]),
+                     rng.choice([None] + list(range(1, nent + 1))))
+                    for _ in range(rng.choice([0, 1, 2]))]
+            got, ref = impl_pot_transform(out[1], sub, sign, ptr, warm)
             res.count('pot_transform:' + ('err' if got[0] == 'err' else
                                           'whole' if sub is None else 'facet'))
             if got[0] == 'ok':
@@ -1335,10 +1346,17 @@ def _run(res, tier, seed, proofs_ok):
     # fixed cases first: the RPP of the seeded-change demo under every placement
     fixed = [('rpp', [-1.0, 1, -2, 2, -3, 3]), ('box', [0.0, 0, 0, 0, 2, 0, 1, 0, 0, 0, 0, 3]),
              ('rcc', [0.0, 0, 0, 0, 0, 2, 1]), ('wed', [0.0, 0, 0, 0, 2, 0, 1, 0, 0, 0, 0, 3])]
+    # corpus: the RPP of the seeded change C03_B (memo in pot_transform keyed
+    # without the facet number) under every kind of placement, then the rest
+    kinds = ['fill-shift', 'fill-inline', 'fill-num', 'trcl-shift',
+             'trcl-inline', 'trcl-num', 'trcl-star']
     for d in range(n_tdecks):
-        mn, prm = fixed[d] if d < len(fixed) else tpool[(k + d) % len(tpool)]
+        kind = kinds[d] if d < len(kinds) else None
+        mn, prm = fixed[0] if d < len(kinds) else (
+            fixed[d - len(kinds)] if d - len(kinds) < len(fixed)
+            else tpool[(k + d) % len(tpool)])
         sw = sweep_transformed((rng.randint(1, 89), mn, prm), rng,
-                               *((40, 3) if quick else (120, 6)))
+                               *((40, 3) if quick else (120, 6)), kind=kind)
         res.count(f'transformed:{sw["kind"]}')
         res.count(f'transformed-body:{mn}')
         tchecked += sw['checked']
